@@ -5,6 +5,7 @@ pub mod exchange;
 pub mod framing;
 pub mod head;
 pub mod headers;
+pub mod logjson;
 pub mod response;
 pub mod server;
 pub mod sse;
@@ -28,6 +29,8 @@ pub fn run(args: &Args, out: Out) {
         "sse-content" => sse::run_content(args, out),
         "sse-threads" => sse::run_threads(args, out),
         "date-sweep" => calendar::run_sweep(args, out),
+        "json-scalars" => logjson::run_scalars(args, out),
+        "json-lines" => logjson::run_lines(args, out),
         "headers-enum" => headers::run_enum(args, out),
         "ascii-ctors" => headers::run_ctors(args, out),
         "framing-gen" => framing::run_gen(args, out),
